@@ -1,3 +1,89 @@
-(* Suite "tags": requests evaluated by the model for the correspondence check (stub). *)
-From Klog Require Import Base.Prelude Model.Show Model.Tags.
-Definition suite_tags (cmd : bytes) (args : list bytes) : option bytes := None.
+(* Suite "tags" (C14): requests evaluated by the model for the correspondence check.
+
+   tags-find <r|e> <lines>             Summary.Tags(): original order, ToStrings(), the lookup set (sorted)
+   tags-contains <query> <lines>       NewTagFromString(query) and TagSet.Contains on the summary's tags
+   tags-agg (R <lines> | E <minutes> <lines>)*      AggregateTotalsByTags over records with duration entries
+
+   <lines> is `_` (no line) or hex strings joined by `,` (`-` is the empty string). *)
+From Klog Require Import Base.Prelude Model.Calendar Model.Values Model.Record Model.Show Model.Tags.
+Open Scope Z_scope.
+
+Definition comma : N := 44%N.
+Definition colon : N := 58%N.
+
+Definition arg_lines (s : bytes) : list bytes :=
+  if bytes_eqb s b!"_" then [] else map arg_bytes (split_on comma s []).
+
+Definition hx (s : bytes) : bytes := match s with [] => b!"-" | _ => hex_of_bytes s end.
+
+Definition show_tag (t : tag) : bytes := hx (t_name t) ++ [colon] ++ hx (t_value t).
+
+Definition show_tagset (ts : tagset) : bytes :=
+  words [b!"o=" ++ join [comma] (map show_tag (ts_original ts));
+         b!"s=" ++ join [comma] (map (fun t => hx (go_tag_to_string t)) (ts_original ts));
+         b!"l=" ++ join [comma] (map show_tag (sort_by tag_ltb (ts_lookup ts)))].
+
+Definition show_stat (s : stat) : bytes :=
+  join [colon] [hx (t_name (st_tag s)); hx (t_value (st_tag s)); dec (st_total s); dec (st_count s)].
+
+Definition fixed_date : date := {| dt := {| c_year := 2000; c_month := 1; c_day := 1 |}; dt_dashes := true |}.
+
+(* the records of a tags-agg request; built back to front *)
+Fixpoint parse_records (toks : list bytes) (cur : option record) (done : list record) : option (list record) :=
+  let flush := match cur with
+               | Some r => {| rec_date := rec_date r; rec_should := None; rec_summary := rec_summary r;
+                              rec_entries := rev (rec_entries r) |} :: done
+               | None => done
+               end in
+  match toks with
+  | [] => Some (rev flush)
+  | k :: rest =>
+    if bytes_eqb k b!"R" then
+      match rest with
+      | ls :: rest' =>
+        parse_records rest' (Some {| rec_date := fixed_date; rec_should := None;
+                                     rec_summary := arg_lines ls; rec_entries := [] |}) flush
+      | [] => None
+      end
+    else if bytes_eqb k b!"E" then
+      match rest, cur with
+      | m :: ls :: rest', Some r =>
+        parse_records rest'
+          (Some {| rec_date := rec_date r; rec_should := None; rec_summary := rec_summary r;
+                   rec_entries := {| e_value := VDuration (mk_dur (parse_int m)); e_summary := arg_lines ls |}
+                                  :: rec_entries r |}) done
+      | _, _ => None
+      end
+    else None
+  end.
+
+Definition suite_tags (cmd : bytes) (args : list bytes) : option bytes :=
+  if bytes_eqb cmd b!"tags-find" then
+    match args with
+    | [_; ls] => Some (show_outcome show_tagset (go_summary_tags_o (arg_lines ls)))
+    | _ => None
+    end
+  else if bytes_eqb cmd b!"tags-contains" then
+    match args with
+    | [q; ls] =>
+      Some (match go_new_tag_from_string (arg_bytes q) with
+            | Crash _ => b!"crash"
+            | Err _ => b!"crash"
+            | Ok None => b!"err INVALID_TAG"
+            | Ok (Some t) =>
+              match go_summary_tags_o (arg_lines ls) with
+              | Ok ts => words [b!"ok"; show_tag t; hx (go_tag_to_string t); show_bool (ts_contains ts t)]
+              | _ => b!"crash"
+              end
+            end)
+    | _ => None
+    end
+  else if bytes_eqb cmd b!"tags-agg" then
+    match parse_records args None [] with
+    | Some rs => Some (match go_aggregate_o rs with
+                       | Ok l => words (b!"ok" :: map show_stat l)
+                       | _ => b!"crash"
+                       end)
+    | None => None
+    end
+  else None.
